@@ -226,11 +226,22 @@ def r8c(fb, rep):
     rep.floor(R, "Precompiled load sites", n, 2)
     # (2) census of unconditional panic sites in the hand-written deserialisation code
     sites = {}
+    # the link stage: functions that consume a loaded CompiledModule / CompiledFunction by value (and their closures)
+    link_roots = set()
     for b in fb.bodies.values():
-        if not b.file.endswith("vm/src/serialization.rs") and not b.file.endswith("base/src/serialization.rs"):
-            continue
-        if "Deserialize" not in b.id and "deserialize" not in b.id and "Visitor" not in b.id and "DeSeed" not in b.id:
-            continue
+        if b.crate.name == "gluon_vm" and b.kind == "fn":
+            for i in range(1, (b.get("argc") or 0) + 1):
+                t = b.local_tstr(i)
+                if t in ("gluon_vm::compiler::CompiledModule", "gluon_vm::compiler::CompiledFunction"):
+                    link_roots.add(b.id)
+    rep.floor(R, "link-stage functions consuming a loaded module", len(link_roots), 3)
+    for b in fb.bodies.values():
+        is_link = b.id in link_roots or (b.get("root") in link_roots) or any(b.id.startswith(r + "::{closure") for r in link_roots)
+        if not is_link:
+            if not b.file.endswith("vm/src/serialization.rs") and not b.file.endswith("base/src/serialization.rs"):
+                continue
+            if "Deserialize" not in b.id and "deserialize" not in b.id and "Visitor" not in b.id and "DeSeed" not in b.id:
+                continue
         for c in b.calls():
             nm = c.res
             kind = None
@@ -440,3 +451,120 @@ def run(fb, rep, tier, cfg):
     r8e(fb, rep)
     r8f(fb, rep)
     r8g(fb, rep)
+    r8h(fb, rep)
+    r8j(fb, rep)
+
+
+def _result_ok_type(tstr):
+    """`core::result::Result<T, E>` -> T (top-level split)"""
+    if not tstr.startswith("core::result::Result<"):
+        return None
+    inner = tstr[len("core::result::Result<"):-1]
+    depth = 0
+    for i, ch in enumerate(inner):
+        if ch in "<([":
+            depth += 1
+        elif ch in ">)]":
+            depth -= 1
+        elif ch == "," and depth == 0:
+            return inner[:i].strip()
+    return inner.strip()
+
+
+def r8h(fb, rep):
+    """R8h — the reader reads what the writer writes.  `compile_to` (behind `compile_to_bytecode`) serialises one top-level type; every
+    stage of the `Precompiled` executable (`run_expr`, and `load_script` behind `load_bytecode`, documented as the inverse of
+    `compile_to_bytecode`) must deserialise that same type.  A reader instantiated at another type can never load the writer's
+    output ("missing field ...")."""
+    R = "R8h"
+    rep.rule(R, "every Precompiled stage deserialises the top-level type that compile_to serialises")
+    written = set()
+    for bid, b in fb.pre.items():
+        if bid.startswith("gluon::compiler_pipeline::compile_to"):
+            for c in b.calls():
+                if "SerializeState<gluon_vm::serialization::SeSeed>" in c.res and c.res.split("#")[0].endswith("::serialize_state") and c.args and c.args[0][0] in ("c", "m"):
+                    written.add(b.local_tstr(c.args[0][1][0]).lstrip("&").strip())
+    if not written:
+        rep.anchor_lost(R, "the serialize_state call of compiler_pipeline::compile_to")
+        return
+    n = 0
+    for bid, b in sorted(fb.pre.items()):
+        if "compiler_pipeline::Precompiled" not in bid:
+            continue
+        stage = "run_expr" if "run_expr" in bid else ("load_script" if "load_script" in bid else bid)
+        for c in b.calls():
+            if c.res.endswith("serialization::DeSeed::<'gc>::deserialize") and c.dest is not None:
+                n += 1
+                t = _result_ok_type(b.local_tstr(c.dest[0]))
+                if t in written:
+                    rep.ok(R, "Precompiled::%s reads %s, which compile_to writes" % (stage, t))
+                else:
+                    rep.violation(R, "reader-type-not-written|%s|%s" % (stage, (t or "?").split("<")[0]), "Precompiled::%s deserialises `%s` but compile_to (compile_to_bytecode) serialises %s: "
+                                  "the documented pair compile_to_bytecode / load_bytecode cannot load its own output" % (stage, t, sorted(written)), c.where())
+    rep.floor(R, "Precompiled deserialisation sites", n, 2)
+
+
+def r8j(fb, rep):
+    """R8j — a deserialised array gets the element representation of its data.  `ValueArray` is serialised as the sequence of its
+    values whatever its representation (Byte / Int / Float / String / ... / Unknown); the allocation definition the array
+    deserialiser is instantiated at must therefore derive the representation from the elements (as `ArrayDef` does with
+    `Repr::from_value`), not write one constant: typed accessors (`as_slice::<u8>()`, `&[i64]` arguments, `from_utf8`) refuse an
+    array whose representation does not match its element type."""
+    R = "R8j"
+    rep.rule(R, "the array deserialiser derives the representation of the array from its elements")
+    b = next((b for bid, b in fb.bodies.items() if bid.endswith("serialization::gc::deserialize_array") or bid.endswith("::deserialize_array")), None)
+    if b is None:
+        rep.anchor_lost(R, "serialization::gc::deserialize_array")
+        return
+    seeds = [c for c in b.calls() if "DeserializeSeed" in c.res or "DeserializeSeed" in c.fn]
+    defs = set()
+    for c in seeds:
+        for a in c.args:
+            if a[0] in ("c", "m"):
+                t = b.local_tstr(a[1][0])
+                if "DataDefSeed<" in t:
+                    defs.add(t[t.index("DataDefSeed<") + len("DataDefSeed<"):].rsplit(">", 2)[0])
+    if not defs:
+        rep.anchor_lost(R, "the DataDefSeed<T> instantiation in deserialize_array")
+        return
+    for t in sorted(defs):
+        # the DataDef impl for T: does its initialize derive the representation from data?
+        init = [x for xid, x in fb.bodies.items() if xid.endswith("::initialize") and xid.startswith("<%s as gluon_vm::gc::DataDef>" % t)]
+        if not init and t.startswith("alloc::vec::Vec<"):
+            # Vec<T> forwards to &[T]
+            el = t[len("alloc::vec::Vec<"):-1]
+            init = [x for xid, x in fb.bodies.items() if xid.endswith("::initialize") and xid.startswith("<&'a [%s] as gluon_vm::gc::DataDef>" % el)]
+        if not init:
+            rep.anchor_lost(R, "DataDef::initialize for %s" % t)
+            continue
+        derives = False
+        consts = set()
+        # an initialize that forwards to another definition's initialize (Vec<T> -> &[T], a wrapper -> ArrayDef) is followed
+        work, seen_i = list(init), set()
+        while work:
+            x = work.pop()
+            if x.id in seen_i:
+                continue
+            seen_i.add(x.id)
+            for c in x.calls():
+                if c.res.split("#")[0].endswith("::initialize") and "DataDef" in c.res:
+                    nb = fb.body(c.res) or fb.body(c.res.split("#")[0])
+                    if nb is not None:
+                        work.append(nb)
+        init = [fb.bodies[i] for i in seen_i if i in fb.bodies] or init
+        for x in init:
+            for c in x.calls():
+                if c.res.endswith("Repr::from_value"):
+                    derives = True
+                if c.res.endswith("::set_repr") and len(c.args) >= 2:
+                    src = flow.sources(x, c.args[1], depth=6)
+                    consts |= {s for s in src if s[0] in ("const", "agg")}
+            for i, j, pl, rv, ln in x.assigns():
+                if rv[0] == "agg" and rv[1][0] == "adt" and rv[1][1] == "gluon_vm::value::Repr":
+                    consts.add(rv[1][2])
+        if derives:
+            rep.ok(R, "deserialize_array allocates through %s, whose initialize derives the representation with Repr::from_value" % t)
+        else:
+            rep.violation(R, "array-repr-constant|%s" % t.split("<")[0].rsplit("::", 1)[-1], "deserialize_array allocates through `%s`, whose DataDef::initialize writes the constant representation %s whatever "
+                          "the elements are: a deserialised `Array Byte` / `Array Int` / `Array Float` / `Array String` is no longer usable through its typed accessors "
+                          "(from_utf8 fails, a &[i64] argument panics)" % (t, sorted({c if isinstance(c, str) else str(c[-1]) for c in consts}) or "(constant)"), b.where())
